@@ -28,6 +28,7 @@ PROPS = {
     },
     "C04": {
         "modules": ["Ark.Props.C04a", "Ark.Props.C04b", "Ark.Props.C04c", "Ark.Props.C04d"],
+        "extra_streams": [{"crate": "harness2", "bin": "c04x"}],
         "gen_from": "C16",
         "rule": "one op line per scalar-multiplication call (algorithm, curve, point, scalar, window/table parameters); distinct = distinct op line; non-trivial = scalar outside {0,1} and non-identity point",
         "exhaustive": ["all points x all k in 0..2#E+1 on seven toy curves over F_13 for the double-and-add and scalar paths"],
@@ -36,6 +37,7 @@ PROPS = {
     },
     "C09": {
         "modules": ["Ark.Props.C09", "Ark.Props.C09b"],
+        "extra_streams": [{"crate": "harness2", "bin": "c10x"}],
         "rule": "one op line per (type, mode, value) round trip or uniqueness probe; distinct = distinct op line; non-trivial = value outside {0,1}",
         "exhaustive": ["every byte string of the serialized size for the toy fields and toy curves"],
         "partial": [],
@@ -44,6 +46,7 @@ PROPS = {
     },
     "C10": {
         "modules": ["Ark.Props.C10"],
+        "extra_streams": [{"crate": "harness2", "bin": "c10x"}],
         "rule": "one op line per (type, mode, validate, byte string) deserialization; distinct = distinct op line; non-trivial = non-empty byte string",
         "exhaustive": ["every byte string of the serialized size (and all truncations) for the toy fields and toy curves"],
         "partial": [],
